@@ -126,6 +126,8 @@ class Ctx:
         self.tlc_runs.append({"module": module, "cfg": cfg, "generated": r.generated,
                               "distinct": r.distinct, "depth": r.depth, "wall_s": round(r.wall, 2),
                               "rc": p.returncode, "violation": r.violation})
+        if os.environ.get("VERIF_VERBOSE"):
+            print("  [tlc %s/%s: %d distinct, %d emitted, %.1fs]" % (module, cfg, r.distinct, len(r.emitted), r.wall))
         if p.returncode == 124:
             raise Infra("TLC timeout on %s/%s after %ss" % (module, cfg, timeout))
         if not r.ok and not (expect_violation and r.violation):
@@ -173,9 +175,12 @@ class Ctx:
         e["VERIF_SCRATCH"] = self.scratch
         if env:
             e.update(env)
+        _t = time.time()
         p = subprocess.run(["timeout", "-k", "5", str(timeout), binp] + args + ["--out", outp],
                            cwd=self.scratch, env=e, stdout=subprocess.PIPE, stderr=subprocess.STDOUT,
                            text=True, errors="replace", input=stdin)
+        if os.environ.get("VERIF_VERBOSE"):
+            print("  [vh %s: rc=%s %.1fs]" % (args[0], p.returncode, time.time() - _t))
         if p.returncode == 124 or p.returncode == 137:
             raise Infra("harness %s timed out after %ss\n%s" % (args[:2], timeout, p.stdout[-3000:]))
         if not os.path.exists(outp) and re.search(r"^(panic:|fatal error:)", p.stdout, re.M) \
@@ -199,6 +204,35 @@ class Ctx:
         if check and res.get("infra"):
             raise Infra("harness %s infra error: %s" % (args[:2], res["infra"]))
         return res
+
+    def vh_sharded(self, cmd, cases, extra=None, shards=None, timeout=1800, env=None):
+        """Split the case list over several harness processes (the library's state is process-global,
+        so parallelism is by process) and merge the results."""
+        import concurrent.futures
+        shards = shards or min(NCPU, max(1, len(cases) // 200))
+        parts = [cases[i::shards] for i in range(shards)]
+        paths = [self.write_cases("%s-%d.ndjson" % (cmd, i), part) for i, part in enumerate(parts) if part]
+        self.build()
+
+        def one(i_path):
+            i, path = i_path
+            e = dict(env or {})
+            e["VERIF_SHARD"] = str(i)
+            return self.vh([cmd, "--cases", path] + (extra or []), timeout=timeout, env=e)
+        with concurrent.futures.ThreadPoolExecutor(max_workers=shards) as ex:
+            results = list(ex.map(one, enumerate(paths)))
+        merged = {"evaluations": 0, "distinct_nontrivial": 0, "traces": 0, "samples": [], "violations": [],
+                  "extra": {}}
+        for res in results:
+            merged["evaluations"] += res.get("evaluations", 0)
+            merged["distinct_nontrivial"] += res.get("distinct_nontrivial", 0)
+            merged["traces"] += res.get("traces", 0)
+            merged["samples"] += (res.get("samples") or [])[:2]
+            merged["violations"] += res.get("violations") or []
+            for k, v in (res.get("extra") or {}).items():
+                if isinstance(v, (int, float)):
+                    merged["extra"][k] = merged["extra"].get(k, 0) + v
+        return merged
 
     def write_cases(self, name, cases):
         path = os.path.join(self.scratch, name)
